@@ -197,11 +197,21 @@ def elim_quant(t, positive: bool, idx, skolems: list):
                 b = z3.substitute_vars(t.body(), j)
                 insts.append(elim_quant(b, positive, idx, skolems))
             if not insts:
-                return z3.BoolVal(positive)
+                return t            # no candidate terms yet: keep the quantifier (a later round may have some)
             return z3.And(*insts) if positive else z3.Or(*insts)
         else:
-            sk = [fresh(t.var_sort(i), "sk_" + t.var_name(i)) for i in range(nvars)]
-            skolems.extend(sk)
+            # stable skolemisation: one set of skolem constants per (closed) quantifier term
+            cache = _SKOLEM_CACHE
+            sk = cache.get(t.get_id())
+            if sk is None:
+                sk = [fresh(t.var_sort(i), "sk_" + t.var_name(i)) for i in range(nvars)]
+                cache[t.get_id()] = sk
+                _SKOLEM_KEEP.append(t)
+                skolems.extend(sk)
+            else:
+                for c in sk:
+                    if not any(c.get_id() == d.get_id() for d in skolems):
+                        skolems.append(c)
             b = z3.substitute_vars(t.body(), *reversed(sk))
             return elim_quant(b, positive, idx, skolems)
     if z3.is_app(t) and t.sort() == BOOL:
@@ -215,6 +225,28 @@ def elim_quant(t, positive: bool, idx, skolems: list):
             return z3.Implies(elim_quant(t.arg(0), not positive, idx, skolems),
                               elim_quant(t.arg(1), positive, idx, skolems))
     return t
+
+
+def weaken(t, positive):
+    """Replace the quantified subformulas of an asserted formula by true (positive position) / false (negative)."""
+    if z3.is_quantifier(t):
+        return z3.BoolVal(positive)
+    if z3.is_app(t) and t.sort() == BOOL:
+        k = t.decl().kind()
+        if k in (z3.Z3_OP_AND, z3.Z3_OP_OR):
+            cs = [weaken(c, positive) for c in t.children()]
+            return z3.And(*cs) if k == z3.Z3_OP_AND else z3.Or(*cs)
+        if k == z3.Z3_OP_NOT:
+            return z3.Not(weaken(t.arg(0), not positive))
+        if k == z3.Z3_OP_IMPLIES:
+            return z3.Implies(weaken(t.arg(0), not positive), weaken(t.arg(1), positive))
+        if has_quant(t):
+            return z3.BoolVal(positive)
+    return t
+
+
+_SKOLEM_CACHE = {}
+_SKOLEM_KEEP = []
 
 
 def has_quant(t):
@@ -262,6 +294,8 @@ class TermIndex:
             self.parent[ra] = rb
 
     def add_idx(self, t):
+        if len(self.idx) >= MAX_INDEX_TERMS:
+            return
         if t.get_id() not in self.idx_ids and t.sort() == INT:
             self.idx_ids.add(t.get_id())
             self.idx.append(t)
@@ -400,6 +434,10 @@ def prepare_query(reg: Registry, hyps, goal, extra_terms=(), level=0):
     del anchor_ix
 
     def add(t):
+        if len(derived) >= MAX_DERIVED:
+            return False
+        if has_quant(t):
+            t = weaken(t, True)  # uninstantiated quantified parts of a hypothesis are dropped (sound weakening)
         if t.get_id() not in derived_ids:
             derived_ids.add(t.get_id())
             derived.append(t)
@@ -408,7 +446,7 @@ def prepare_query(reg: Registry, hyps, goal, extra_terms=(), level=0):
         return False
 
     sk_int = [t for t in sk if t.sort() == INT]
-    for rnd in range(INST_ROUNDS):
+    for rnd in range(INST_ROUNDS if level == 0 else min(INST_ROUNDS, 3)):
         ix.congruence()
         find = ix.find
         by_class = ix.by_class()
@@ -583,6 +621,8 @@ def seq_lemmas_for(base, k, done):
 
 
 INST_ROUNDS = int(os.environ.get("PYVC_INST_ROUNDS", "7"))
+MAX_INDEX_TERMS = 90
+MAX_DERIVED = 1500
 LIGHT_LABELS = ("requires:", "cinv:", "branch", "loop-index", "loop-iter", "loop-exit", "obl:", "ax:", "assume",
                 "raises", "no-raise", "map-len")
 FOLD_UNFOLD_ROUNDS = 3
